@@ -60,6 +60,8 @@ def main(ctx):
         print("replay verdict: %d violation(s) of %s" % (len(mine), ctx.prop))
         ctx.cleanup()
         return 1 if mine else 0
+    # binding evidence: every replayed trace is also checked against the mechanism specification Receiver.tla
+    ctx.rx_conformance_spec = "Trace_Receiver"
     for sfam, nsq, nst, cfam, maxn, nbq, nbt in plan:
         ns = nsq if ctx.tier == "quick" else nst
         nb = nbq if ctx.tier == "quick" else nbt
@@ -99,7 +101,7 @@ def main(ctx):
            "events_judged_by_monitor": ctx.events,
            "families": fams,
            "exhaustive": all(f["exhaustive_over_recorded_sessions"] for f in fams.values()),
-           "explanation": "sessions are recorded from the real Sender for TLC-enumerated shapes (Gen_Recv.tla, mode sess); TLC then enumerates fault schedules over the recorded packet lists (mode chan); each schedule is replayed into a fresh real MultiReceiver with a scripted writer and every event is judged by the TLA+ monitor ReceiverProps.tla (%s)" % TEXT[ctx.prop]}
+           "explanation": "sessions are recorded from the real Sender for TLC-enumerated shapes (Gen_Recv.tla, mode sess); TLC then enumerates fault schedules over the recorded packet lists (mode chan); each schedule is replayed into a fresh real MultiReceiver with a scripted writer and every event is judged by the TLA+ monitor ReceiverProps.tla (%s): this is the verdict.  The same traces are checked against the mechanism specification Receiver.tla (Trace_Receiver: callbacks of every call per object, and the containers against the hook snapshot): 'mechanism_conformance' reports matched / drifted / unsupported behaviours (binding evidence, not an alarm)" % TEXT[ctx.prop]}
     return finish(ctx, "model_checking", cov, [
         "decodability is decided in TLA+ from the delivered (SBN, ESI) sets and the Partition.tla structure, using the decode rule the property states",
         "bytes are compared through digests computed by the harness on both sides",
